@@ -1,25 +1,30 @@
-(* C19: when nothing can fire in a lineage cell (total propensity 0), an iteration of the single-cell loop consumes no
-   random number, changes no count, and moves the clock to the next queued time or to the final time -- never into the
-   reaction branch (the defects F11 / F19 were exactly such moves).  Reals; 0 < eps7. *)
+(* C19: when nothing can fire in a lineage cell (total propensity 0), an iteration of the single-cell loop samples no
+   reaction: it changes no count and moves the clock to the next queued time or to the final time -- never into the
+   reaction branch (the defects F11 / F19 were exactly such moves); the only random numbers it may consume are the noise
+   terms of its rules.  Reals; 0 < eps7. *)
 From Coq Require Import ZArith Reals List Bool Lia Lra Arith.
 From BS Require Import Base.Arith Model.Term Model.Propensity Model.Interface Model.Rules Model.Random Model.Queue Model.SSA Model.Lineage.
 Import ListNotations.
 Local Open Scope R_scope.
 
-Theorem lssa_idle_iteration (l : lin R) eps9 eps7 dt final t_init V_init u st st' tnext rest :
+Theorem lssa_idle_iteration (l : lin R) pi2 eps9 eps7 dt final t_init V_init u st st' tnext rest :
   0 < eps7 ->
   ls_todo st = tnext :: rest ->
   let '(x1, p1) := apply_rules ArithR (sm_rules (ln_sim l)) (Some (ls_V st)) (ls_x st, ls_p st) (ls_time st) dt (ls_rule_step st) in
-  first_true (fun r => krule_check ArithR eps9 r x1 p1 (ls_time st) (ls_V st)) (ln_krules l) 0%Z = (-1)%Z ->
-  first_true (fun r => drule_check ArithR eps9 r x1 p1 (ls_time st) (ls_V st) t_init V_init) (ln_drules l) 0%Z = (-1)%Z ->
+  let '(dead, posa) := first_true (fun r => krule_check ArithR pi2 eps9 r x1 p1 (ls_time st) (ls_V st) u) (ln_krules l) 0%Z (ls_pos st) in
+  let '(divd, posb) := first_true (fun r => drule_check ArithR pi2 eps9 r x1 p1 (ls_time st) (ls_V st) t_init V_init u) (ln_drules l) 0%Z posa in
+  dead = (-1)%Z -> divd = (-1)%Z ->
   array_sum ArithR (lin_props ArithR l x1 p1 (ls_V st) (ls_time st)) = 0 ->
-  lssa_iter ArithR eps9 eps7 l dt final t_init V_init u st = Done st' ->
-  ls_pos st' = ls_pos st /\ ls_x st' = x1 /\ ls_rule_step st' = true /\ ls_divided st' = (-1)%Z /\ ls_dead st' = (-1)%Z /\
+  lssa_iter ArithR pi2 eps9 eps7 l dt final t_init V_init u st = Done st' ->
+  ls_x st' = x1 /\ ls_rule_step st' = true /\ ls_divided st' = (-1)%Z /\ ls_dead st' = (-1)%Z /\
+  ls_pos st' = snd (apply_volume_rules ArithR pi2 (ln_vrules l) x1 p1 (ls_V st) (ls_time st') dt u posb) /\
   ((ls_time st' = ls_next_q st /\ ls_next_q st' = ls_next_q st + dt) \/ ls_time st' = final).
 Proof.
   intros Heps Et.
   destruct (apply_rules ArithR (sm_rules (ln_sim l)) (Some (ls_V st)) (ls_x st, ls_p st) (ls_time st) dt (ls_rule_step st)) as [x1 p1] eqn:Er.
-  intros Hk Hd HL H. unfold lssa_iter in H. rewrite Et, Er, Hk, Hd in H. cbn [Z.leb Z.compare] in H.
+  destruct (first_true (fun r => krule_check ArithR pi2 eps9 r x1 p1 (ls_time st) (ls_V st) u) (ln_krules l) 0%Z (ls_pos st)) as [dead posa] eqn:Ek.
+  destruct (first_true (fun r => drule_check ArithR pi2 eps9 r x1 p1 (ls_time st) (ls_V st) t_init V_init u) (ln_drules l) 0%Z posa) as [divd posb] eqn:Ed.
+  intros -> -> HL H. unfold lssa_iter in H. rewrite Et, Er, Ek, Ed in H.
   change (0 <=? -1)%Z with false in H. cbv iota in H.
   rewrite HL in H. change (feqb ArithR 0 (f0 ArithR)) with (Reqb 0 0) in H.
   assert (E0 : Reqb 0 0 = true) by (apply Reqb_true; reflexivity). rewrite E0 in H. cbn [andb] in H.
@@ -33,12 +38,14 @@ Proof.
   change (fltb ArithR (ls_next_q st) final) with (Rltb (ls_next_q st) final) in H.
   destruct (Rltb (ls_next_q st) final) eqn:Eq.
   - destruct (record ArithR (tnext :: rest) (ls_next_q st) x1) as [rows rem].
-    match type of H with context [fleb ArithR ?v (f0 ArithR)] => destruct (fleb ArithR v (f0 ArithR)) end; [discriminate|].
-    inversion H; subst; cbn. repeat split; auto.
+    destruct (apply_volume_rules ArithR pi2 (ln_vrules l) x1 p1 (ls_V st) (ls_next_q st) dt u posb) as [V' posv] eqn:Ev.
+    destruct (fleb ArithR V' (f0 ArithR)); [discriminate|].
+    inversion H; subst; cbn. rewrite Ev. repeat split; auto.
   - apply Rltb_false in Eq.
     change (fltb ArithR (fsub ArithR final eps7) p) with (Rltb (final - eps7) p) in H.
     replace (Rltb (final - eps7) p) with true in H by (symmetry; apply Rltb_true; lra).
     destruct (record ArithR (tnext :: rest) final x1) as [rows rem].
-    match type of H with context [fleb ArithR ?v (f0 ArithR)] => destruct (fleb ArithR v (f0 ArithR)) end; [discriminate|].
-    inversion H; subst; cbn. repeat split; auto.
+    destruct (apply_volume_rules ArithR pi2 (ln_vrules l) x1 p1 (ls_V st) final dt u posb) as [V' posv] eqn:Ev.
+    destruct (fleb ArithR V' (f0 ArithR)); [discriminate|].
+    inversion H; subst; cbn. rewrite Ev. repeat split; auto.
 Qed.
